@@ -4,6 +4,7 @@ import (
 	"context"
 	"errors"
 	"fmt"
+	"sync"
 
 	"github.com/risor-io/risor/errz"
 	"github.com/risor-io/risor/op"
@@ -13,6 +14,8 @@ import (
 // resolved to a concrete Object at runtime.
 type DynamicAttr struct {
 	name  string
+	mutex sync.Mutex
+	ctx   context.Context // the context that value was resolved with
 	value Object
 	fn    ResolveAttrFunc
 }
@@ -26,6 +29,8 @@ func (d *DynamicAttr) Type() Type {
 }
 
 func (d *DynamicAttr) Interface() interface{} {
+	d.mutex.Lock()
+	defer d.mutex.Unlock()
 	return d.value
 }
 
@@ -41,6 +46,8 @@ func (d *DynamicAttr) Equals(other Object) Object {
 }
 
 func (d *DynamicAttr) IsTruthy() bool {
+	d.mutex.Lock()
+	defer d.mutex.Unlock()
 	return d.value != nil
 }
 
@@ -65,15 +72,33 @@ func (d *DynamicAttr) Cost() int {
 }
 
 func (d *DynamicAttr) ResolveAttr(ctx context.Context, name string) (Object, error) {
-	if d.value != nil {
+	d.mutex.Lock()
+	defer d.mutex.Unlock()
+	// A resolved value belongs to the evaluation it was resolved for: the
+	// context carries that evaluation's OS and its lifetime. The attribute
+	// object itself lives in a module that may be shared by many evaluations,
+	// so the value is reused only under the context it was resolved with.
+	if d.value != nil && sameContext(d.ctx, ctx) {
 		return d.value, nil
 	}
 	attr, err := d.fn(ctx, name)
 	if err != nil {
 		return nil, err
 	}
-	d.value = attr
+	d.ctx, d.value = ctx, attr
 	return attr, nil
+}
+
+// sameContext reports whether a and b are the same context value. Contexts are
+// normally pointers; a context of a type that cannot be compared is simply
+// never "the same".
+func sameContext(a, b context.Context) (same bool) {
+	defer func() {
+		if recover() != nil {
+			same = false
+		}
+	}()
+	return a == b
 }
 
 func NewDynamicAttr(name string, fn ResolveAttrFunc) *DynamicAttr {
